@@ -105,12 +105,12 @@ let sort_check line =
 (* class: "name" -> class of the name (input histogram / domain check) *)
 let cls line = string_of_n (name_class (dec_name line))
 
-(* tok: "name" -> kinds and lengths of the tokens, cut offsets, utf8 validity of every token *)
+(* tok: "name" -> kinds and lengths of the tokens *)
 let tok line =
   let s = dec_name line in
   let ts = tokenize s in
   String.concat " " (List.map (fun (k, t) ->
-    (if k then "d" else "t") ^ string_of_int (List.length t) ^ (if utf8_wf t then "" else "!")) ts)
+    (if k then "d" else "t") ^ string_of_int (List.length t)) ts)
 
 (* ---- tree: "attr rev item item ..." (see harness/hx-sort/src/tree.rs) ---- *)
 let enc2 (l : n list) : string =
